@@ -1,4 +1,47 @@
-import PV.Model.Tree.BST
-import PV.Model.Tree.AVL
-import PV.Model.Tree.RB
-/-! placeholder: theorems of C13 are being written -/
+import PV.Lemmas.Tree.AVL
+import PV.Lemmas.Tree.RB
+/-!
+# C13 — AVL and red-black trees stay balanced after every operation
+
+Reachable = produced from the empty tree by any sequence of calls.  The bounds are in exact integer
+form: AVL `fib (h+2) ≤ n+1` (which is the 1.4405·log2(n+2) bound), red-black `2^bh ≤ n+1 ∧ h ≤ 2·bh`
+(hence `h ≤ 2·log2(n+1)`).  A lookup compares against at most `h` keys.
+-/
+namespace PV.Tree
+open Std
+
+variable {κ ν : Type} {cmp : κ → κ → Ordering}
+
+theorem avl_reachable_balanced [TransCmp cmp] (ops : List (Op κ ν)) (s : AT κ ν × Int) (outs : List (Out κ ν))
+    (h : avlRun cmp (.nil, 0) ops = some (s, outs)) : s.1.Inv := by
+  obtain ⟨s', h1, _, h3⟩ := avlRun_refines (cmp := cmp) ops .nil 0 []
+    (by simp [BT.Ordered, AT.toBT, BT.toList, SM.Sorted]) (by simp [AT.Inv]) rfl rfl
+  rw [h1] at h
+  cases h
+  exact h3
+
+theorem avl_height_bound (t : AT κ ν) (hi : t.Inv) : fib (t.height + 2) ≤ t.size + 1 := AT.fib_le_size t hi
+
+theorem rb_reachable_balanced [TransCmp cmp] (ops : List (Op κ ν)) (s : RT κ ν × Int) (outs : List (Out κ ν))
+    (h : rbRun cmp (.nil, 0) ops = some (s, outs)) : s.1.Inv := by
+  obtain ⟨s', h1, _, h3⟩ := rbRun_refines (cmp := cmp) ops .nil 0 []
+    (by simp [BT.Ordered, RT.toBT, BT.toList, SM.Sorted]) (by simp [RT.Inv, RT.isBlack, RT.Bal]) rfl rfl
+  rw [h1] at h
+  cases h
+  exact h3
+
+theorem rb_height_bound (t : RT κ ν) (hi : t.Inv) : 2 ^ t.bh ≤ t.size + 1 ∧ t.height ≤ 2 * t.bh :=
+  ⟨RT.pow_bh_le_size t hi.2, RT.height_le_two_bh t hi⟩
+
+/-- `2^⌈h/2⌉ ≤ n + 1`, i.e. `h ≤ 2·log2 (n+1)` -/
+theorem rb_height_log (t : RT κ ν) (hi : t.Inv) : 2 ^ ((t.height + 1) / 2) ≤ t.size + 1 := by
+  have ⟨h1, h2⟩ := rb_height_bound t hi
+  exact Nat.le_trans (Nat.pow_le_pow_right (by decide) (by omega)) h1
+
+theorem lookup_cost (t : BT κ ν) (k : κ) : (t.lookupPath cmp k).length ≤ t.height :=
+  BT.lookupPath_le_height t k
+
+example : (AT.node (.node .nil 1 1 0 .nil) 2 2 1 .nil : AT Nat Nat).Inv := by
+  simp [AT.Inv, AT.height, AT.toBT, BT.height]
+
+end PV.Tree
